@@ -42,9 +42,10 @@ def run(prop, tier, seed, t0):
                 ref_problems.append(m)
             elif m["prop"] == prop:
                 v.mismatch(classify(m), {"tree": c["tree"], "mismatch": m})
-    if ref_problems:
-        # the specification's own minimal printer is rejected by the real parser: the reference rule
-        # (or the grammar) is off - a tool error, not a violation of C07
+    if ref_problems and not v.violations:
+        # the specification's own minimal printer is read differently by the real parser although the formatter's output
+        # shows nothing wrong: the reference rule (or the grammar) is off - a tool error, not a violation.  (When the formatter's
+        # own output is misread too, the violations below are reported: parser and printer no longer agree on the table.)
         raise vlib.ToolError("reference-minimal text of SyntaxRich does not parse like the full text, e.g. %s" % json.dumps(ref_problems[0])[:400])
     # commented programs from the comment state machine (C09's cases) also count for C07 / C08
     import c09
